@@ -25,6 +25,12 @@ ScaleTwice == {[op |-> "scale", x |-> [op |-> "scale", x |-> a, m |-> m], m |-> 
               \cup {[op |-> "scale", x |-> a, m |-> <<>>] : a \in Leaf(AllIds)}
               \cup {[op |-> "scale", x |-> [op |-> "prefix", x |-> a, p |-> p], m |-> m2] : a \in Leaf(Ids2), p \in Prefs2, m2 \in {<<>>, <<BP(6, -1, 1)>>}}
 
+(* a power of a power: exponents must be multiplied and reduced to lowest terms (x^(1/4))^2 = x^(1/2), also through a scale factor *)
+PP == { <<<<1, 4>>, <<2, 1>>>>, <<<<1, 6>>, <<3, 1>>>>, <<<<3, 4>>, <<2, 1>>>>, <<<<1, 2>>, <<2, 1>>>>, <<<<2, 1>>, <<1, 2>>>>, <<<<2, 3>>, <<3, 2>>>>,
+        <<<<1, 6>>, <<2, 1>>>>, <<<<3, 2>>, <<2, 3>>>>, <<<<-1, 4>>, <<2, 1>>>>, <<<<1, 4>>, <<-2, 1>>>>, <<<<1, 4>>, <<6, 1>>>> }
+PowPow == {[op |-> "pow", x |-> [op |-> "pow", x |-> a, r |-> r[1]], r |-> r[2]] :
+              a \in Leaf(Ids2) \cup {[op |-> "scale", x |-> b, m |-> m] : b \in Leaf(Ids2), m \in Mags2}, r \in PP}
+
 (* leaf keys and the exponent map over named units (property level: AC-equality of pure expressions) *)
 LeafKey(e) == IF e.op = "unit" THEN e.id ELSE e.p \o ":" \o e.x.id
 IsLeafLike(e) == e.op = "unit" \/ (e.op = "prefix" /\ e.x.op = "unit")
@@ -38,7 +44,7 @@ PureNamed(e) == IsLeafLike(e) \/ (e.op \in {"mul", "div"} /\ PureNamed(e.l) /\ P
 AsSet(f) == {[b |-> k, n |-> f[k][1], d |-> f[k][2]] : k \in DOMAIN f}
 
 VARIABLES e
-Init == e \in D1All \cup D2 \cup ScaleTwice
+Init == e \in D1All \cup D2 \cup ScaleTwice \cup PowPow
 Next == UNCHANGED e
 Emit == PrintT(<<"CASE", ToJson([e |-> e, dim |-> AsSet(DenDim(e)), mag |-> AsSet(DenMag(e)),
                                  pure |-> PureNamed(e), named |-> IF PureNamed(e) THEN AsSet(NamedExp(e)) ELSE {},
